@@ -270,6 +270,9 @@ func genChallenge(rng *rand.Rand, uni bool, withVersion, withInfo, ess bool, nam
 		if rng.IntN(4) == 0 {
 			c.spec.Version = [8]byte{10, 0, 0x63, 0x45, 0, 0, 0, 15}
 		}
+		if rng.IntN(3) == 0 {
+			c.spec.Version[4], c.spec.Version[5], c.spec.Version[6] = 1, 2, byte(3+rng.IntN(250))
+		}
 	}
 	c.name, _ = genName(rng, nameLen, script)
 	if nameLen > 0 {
@@ -352,6 +355,10 @@ func checkParsedChallenge(e string, got *ntlm.ChallengeMessage, c chalCase, cs m
 	w := c.spec.Version
 	if v.ProductMajorVersion != w[0] || v.ProductMinorVersion != w[1] || v.ProductBuild != binary.LittleEndian.Uint16(w[2:]) || v.NTLMRevision != w[7] {
 		r.Violation(e+":version", fmt.Sprintf("got %d.%d build %d rev %d, sent %x", v.ProductMajorVersion, v.ProductMinorVersion, v.ProductBuild, v.NTLMRevision, w), cs)
+	}
+	// the three reserved octets of VERSION are carried as they came, in their order
+	if v.Reserved != [3]byte{w[4], w[5], w[6]} {
+		r.Violation(e+":version:reserved", fmt.Sprintf("VERSION reserved octets %x decode as %x", w[4:7], v.Reserved), cs)
 	}
 	if got.MessageType != 2 || !bytes.Equal(got.Signature[:], nlmpSig) {
 		r.Violation(e+":header", fmt.Sprintf("type %d signature %x", got.MessageType, got.Signature), cs)
